@@ -18,7 +18,7 @@ def gen_case(rng, tier):
         epd -= 1
     a_spd = sdf * epd
     fillbuf = (32768 * 8) // w if dt not in ("f32", "f64") else 32768 // (w // 8)     # samples per internal fill piece
-    first = rng.choice([0, 0, 1, 3, 8, -5, 2**40 + 1])
+    first = rng.choice([0, 0, 1, 3, 8, -5, 2**40 + 1, 3 * 2**32 + 123456])
     ops = ["wopen", "src 1 e e e e e", proglib.sigdef_op(1, 1, dt, spd=spd, sdf=sdf, eps=eps, sumdf=sumdf)]
     nxt = first
     events = []
@@ -40,6 +40,12 @@ def gen_case(rng, tier):
                     g = rng.choice([1, 3, a_spd + 1])
                 sid = nxt + g
                 ev = "gap%d" % (0 if g < a_spd else 1 if g < fillbuf else 2)
+            elif r < 0.48:
+                # a stale write far in the past (distance around multiples of 2^32 / 2^31, possibly before the first id):
+                # everything in it was already accepted (or lies before the stream), nothing may be appended
+                o = rng.choice([2**32, 2**32 + 1, 2**32 + n - 1, 2**32 + n // 2, 2**32 - 1, 2**31, 2**31 + 3, 2**33 + 5, 2**32 + 10, 5 * 2**32 + 2])
+                sid = nxt - o
+                ev = "overlap_far"
             elif r < 0.8:
                 o = rng.choice([1, 2, 3, 7, 8, 9, n - 1, n, n + 1, n // 2, a_spd, a_spd + 1, rng.randrange(1, n + 3)])
                 o = max(1, min(o, nxt - first))
@@ -64,6 +70,13 @@ def gen_case(rng, tier):
                                trivial=all(e in ("first", "normal") for e in events))
 
 
+def pre_run(ctx):
+    # gap clause ("summaries treat gap samples of float signals as absent"): stored SUMMARY entries of files with gaps
+    # vs the extracted coq/SummQ.v model (Properties_C09_summ.v) and vs the statistics of the written samples
+    import C02_summ
+    C02_summ.run_gap(ctx, build=False)
+
+
 def run(ctx):
     return proglib.run_prog_property(
         ctx, PROP_FILES, gen_case, ("fsr",), 250, 2500,
@@ -71,7 +84,7 @@ def run(ctx):
         "expected id, after it (gap lengths 1..3 blocks and around the internal fill buffer size) or before it (overlaps partial/total/odd/even, "
         "sub-byte for u1/u4/i4); then length, the whole signal and random windows are read and compared with the extracted Spec.fsr_write "
         "(fill = NaN/0, first-written kept); distinct = script; non-trivial = at least one gap or overlap",
-        key_of=lambda m: (m["dt"], tuple(m["events"]), m["total"], m["first"]))
+        key_of=lambda m: (m["dt"], tuple(m["events"]), m["total"], m["first"]), pre_run=pre_run)
 
 
 def replay(ctx, path):
